@@ -5,6 +5,7 @@ import desper
 from hypothesis import strategies as st
 
 from vlib.core import PropertyViolation
+from vlib import worldops
 
 ID = 'C17'
 LEVEL = 'exploration'
@@ -53,7 +54,9 @@ def decode_node(p):
 
 def strategy():
     node = st.integers(0, 8 * len(NAMES) * 6 - 1).map(decode_node)
-    return st.fixed_dictionaries({'nodes': st.lists(node, min_size=1, max_size=20)})
+    # amp: 0, or the number of further handles the root level gets (wide levels, one of the names layered)
+    return st.fixed_dictionaries({'nodes': st.lists(node, min_size=1, max_size=20),
+                                  'amp': worldops.size_amp(none=40, sizes=(40, 64, 65, 66, 130, 260))})
 
 
 def viol(clause, **d):
@@ -84,6 +87,16 @@ def build(case, facts):
             parent.handles.maps.insert(0, {})
             parent[name] = UH()
             facts['layered_handle'] += 1
+    if case.get('amp'):
+        # a wide level: many handles side by side, the first and the last of them shadowing an older handle
+        for k in range(case['amp']):
+            name = 'w%03d' % k
+            if k in (0, case['amp'] - 1):
+                root[name] = UH()
+                root.handles.maps.insert(0, {})
+                facts['layered_handle'] += 1
+            root[name] = UH()
+        facts['wide_level'] += 1
     return root
 
 
